@@ -128,7 +128,9 @@ def main(argv=None):
         print("HARNESS-ERROR unknown property %s" % prop)
         return 2
     try:
-        info = B.build()
+        info = B.build(want_cnode=prop in ("C05", "C01"))
+        if prop in ("C05", "C01") and os.path.exists(info["cnode"]):
+            os.environ["VSIM_CNODE"] = info["cnode"]
     except Exception as e:  # noqa
         print("HARNESS-ERROR build failed: %s" % e)
         return 2
